@@ -46,7 +46,14 @@ def run(ctx):
             for _ in range(n_pairs):
                 a = rng.choice(specs)
                 b = rng.choice(specs) if rng.random() < 0.7 else list(a[:-1]) + [rng.randrange(5 if kind == "domain" else 2)]
-                if kind == "complex" and rng.random() < 0.3:
+                if kind == "complex" and rng.random() < 0.25:
+                    # the same sequence under another structure (same strand breaks): the order looks at both components
+                    shape = [i for i, x in enumerate(a[1]) if x == "+"]
+                    alts = [list(t) for t in gs.all_wf(4 if quick else 5)
+                            if len(t) == len(a[1]) and [i for i, x in enumerate(t) if x == "+"] == shape and list(t) != list(a[1])]
+                    if alts:
+                        b = [a[0], rng.choice(alts), rng.randrange(3)]
+                elif kind == "complex" and rng.random() < 0.3:
                     # the same complex in another rotation, the first in the base class, the second in a subclass
                     rots = gen_pil.rotations(a[0], a[1])
                     r = rng.choice(rots)
